@@ -107,6 +107,33 @@ package lex
 //@     invariant forall k in 0..len(out) :: forall x in 0..1114112 :: (k % 2 == 0 && out[k] <= x && x <= out[k+1]) ==> old(csMem(*c, x)) && !old(csMem(oth, x))
 //@     invariant forall x in 0..1114112 :: (x < lo && old(csMem(*c, x)) && !old(csMem(oth, x))) ==> csMem(out, x)
 
+// ---- the instruction stream of the pattern compiler (C09) ----
+
+// emit: one more instruction and, in the parallel list, the id of the character set it consumes:
+// -1 for the empty set, otherwise the index in c.sets of a set with the same contents (single runes
+// are interned through c.runes).
+//@ pred runesOK(c *reCompiler) = forall r in -2147483648..2147483648 :: has(c.runes, r) ==> 0 <= c.runes[r] && c.runes[r] < len(c.sets) && len(c.sets[c.runes[r]]) == 2 && c.sets[c.runes[r]][0] == r && c.sets[c.runes[r]][1] == r
+//@ func reCompiler.emit
+//@   option slice-wf
+//@   requires len(c.out) == len(c.consume) && c.runes != nil && runesOK(c)
+//@   modifies c.out, c.out[0:cap(c.out)], c.consume, c.consume[0:cap(c.consume)], c.sets, c.sets[0:cap(c.sets)], c.runes
+//@   ensures result == old(len(c.out)) && len(c.out) == old(len(c.out)) + 1 && len(c.consume) == len(c.out) && runesOK(c)
+//@   ensures len(cs) == 0 ==> c.consume[result] == -1 && len(c.sets) == old(len(c.sets))
+//@   ensures len(cs) != 0 ==> 0 <= c.consume[result] && c.consume[result] < len(c.sets) && len(c.sets[c.consume[result]]) == len(cs) && forall k in 0..len(cs) :: c.sets[c.consume[result]][k] == cs[k]
+//@   ensures forall k in 0..old(len(c.consume)) :: c.consume[k] == old(c.consume[k])
+//@   ensures len(c.sets) >= old(len(c.sets)) && forall k in 0..old(len(c.sets)) :: sameslice(c.sets[k], old(c.sets[k]))
+
+//@ func reCompiler.next
+//@   ensures result == len(c.out)
+
+// link: instruction src gets one more link, the relative offset of dst
+//@ func reCompiler.link
+//@   requires 0 <= src && src < len(c.out)
+//@   modifies c.out[0:len(c.out)], c.out[src].links[0:cap(c.out[src].links)]
+//@   ensures forall k in 0..len(c.out) :: k != src ==> sameslice(c.out[k].links, old(c.out[k].links))
+//@   ensures len(c.out[src].links) == old(len(c.out[src].links)) + 1 && c.out[src].links[len(c.out[src].links)-1] == dst - src
+//@   ensures forall k in 0..old(len(c.out[src].links)) :: c.out[src].links[k] == old(c.out[src].links[k])
+
 // ---- the table interpreter (C09) ----
 
 // isState(t, s): s names a row of the NumSymbols-wide transition matrix.
